@@ -361,6 +361,48 @@ func dpCmd(args []string) {
 				continue
 			}
 			pr("Q %s %s\n", qid, execQuery(ix, &updog.Query{Expr: e, GroupBy: gb}))
+		case "QVAL":
+			// one *updog.Query value executed on several indexes in sequence (C08)
+			qid := t.next()
+			k := t.int()
+			var dss []string
+			for j := 0; j < k; j++ {
+				dss = append(dss, t.next())
+			}
+			writer, mode := t.next(), t.next()
+			e := t.expr()
+			if t.next() != "GB" {
+				fatal("expected GB")
+			}
+			m := t.int()
+			var gb []string
+			for j := 0; j < m; j++ {
+				gb = append(gb, t.str())
+			}
+			q := &updog.Query{Expr: e, GroupBy: gb}
+			exprBefore := e.String()
+			gbBefore := append([]string(nil), gb...)
+			for j, ds := range dss {
+				ix, oc := s.index(ds, writer, mode)
+				if ix == nil {
+					pr("QV %s.%d %s\n", qid, j, oc)
+					continue
+				}
+				pr("QV %s.%d %s\n", qid, j, execQuery(ix, q))
+			}
+			same := q.Expr == e && q.Expr.String() == exprBefore && len(q.GroupBy) == len(gbBefore)
+			if same {
+				for j := range gbBefore {
+					if q.GroupBy[j] != gbBefore[j] {
+						same = false
+					}
+				}
+			}
+			if same {
+				pr("QVF %s SAME\n", qid)
+			} else {
+				pr("QVF %s CHANGED\n", qid)
+			}
 		case "SCHEMA":
 			qid, ds, writer := t.next(), t.next(), t.next()
 			ix, oc := s.index(ds, writer, "ondemand")
